@@ -620,4 +620,4 @@ def check(ctx):
     r14_alias_never_replaces_a_real_binding(ctx)
 
 
-CLAUSE += '; every write of a generated file goes to a handle that replaces the file (no tail of a previous, longer generation survives)'
+CLAUSE += ' Also: every write of a generated file goes to a handle that replaces the file (no tail of a previous, longer generation survives).'
